@@ -63,3 +63,41 @@ Proof.
   destruct (no_ub_bind_inv _ _ H) as [H1 _].
   now rewrite (verify_structs_modes st order [] H1).
 Qed.
+
+(* ---- with checked struct size arithmetic (regenerated fact) the front end is one function ---- *)
+Section Checked.
+  Hypothesis Hc : CounterFacts.struct_size_checked = true.
+
+  Lemma verify_fields_same store fs : forall seen size al,
+    verify_fields Debug store seen fs size al = verify_fields Release store seen fs size al.
+  Proof.
+    induction fs as [|f fs IH]; intros seen size al; cbn [verify_fields]; [reflexivity|].
+    destruct (mem_str (sf_name f) seen); [reflexivity|].
+    destruct (field_size_align store (sf_ty f)) as [[isz ial]| | |]; cbn [obind]; try reflexivity.
+    destruct (ial =? 0); [reflexivity|]. destruct (negb (size mod ial =? 0)); [reflexivity|].
+    rewrite (uop_modes_checked 1 _ Hc).
+    destruct (uop Release 1 (isz * sf_cnt f)) as [p| | |]; cbn [obind]; try reflexivity.
+    rewrite (uop_modes_checked 2 _ Hc).
+    destruct (uop Release 2 (size + p)) as [q| | |]; cbn [obind]; try reflexivity.
+    apply IH.
+  Qed.
+
+  Lemma verify_structs_same st : forall order store,
+    verify_structs Debug st store order = verify_structs Release st store order.
+  Proof.
+    induction order as [|n order IH]; intros store; cbn [verify_structs]; [reflexivity|].
+    destruct (struct_lookup st n) as [s|]; [|reflexivity].
+    rewrite verify_fields_same.
+    destruct (verify_fields Release store [] (s_fields s) 0 0) as [sa| | |]; cbn [obind]; try reflexivity.
+    apply IH.
+  Qed.
+
+  Theorem front_modes_same e files : front e Debug files = front e Release files.
+  Proof.
+    unfold front. destruct files as [|main rest]; [reflexivity|].
+    destruct (gather_files st_empty (main :: rest)) as [st| | |]; cbn [obind]; try reflexivity.
+    destruct (functions_pass main) as [[]| | |]; cbn [obind]; try reflexivity.
+    destruct (cycles_pass st main) as [order| | |]; cbn [obind]; try reflexivity.
+    now rewrite (verify_structs_same st order []).
+  Qed.
+End Checked.
